@@ -39,6 +39,7 @@ Inductive opn :=
 | OInsert (k : N) (v : Z)
 | OTryInsert (k : N) (v : Z)
 | ORemove (k : N)
+| OCondRemove (k : N) (obs : Z)                       (* retain's removal: remove k iff its value is still obs *)
 | OCompute (k : N) (f : Z -> option Z).
 
 Inductive res :=
@@ -49,7 +50,7 @@ Inductive res :=
 | RComputed (seen ret : option Z).
 
 Definition op_key (o : opn) : N :=
-  match o with OGet k | OInsert k _ | OTryInsert k _ | ORemove k | OCompute k _ => k end.
+  match o with OGet k | OInsert k _ | OTryInsert k _ | ORemove k | OCondRemove k _ | OCompute k _ => k end.
 
 (* ---------- program counters ---------- *)
 Inductive pc :=
@@ -64,10 +65,12 @@ Inductive pc :=
 | PutWalk (k : N) (v : Z) (no_repl : bool) (h p : nat) (* at node p under the lock *)
 | PutUnlock (h : nat) (r : res) (retry : option opn) (* release; then return r, or start over *)
 (* remove *)
-| RmLock (k : N) (h : nat)
-| RmReval (k : N) (h : nat)
-| RmWalk (k : N) (h : nat) (pred : option nat) (e : nat)   (* load e.next *)
-| RmFound (k : N) (h : nat) (pred : option nat) (e : nat) (nxt : option nat) (* load e.value *)
+(* obs = Some v: conditional removal (replace_node with an observed value), None: unconditional *)
+| RmLock (k : N) (obs : option Z) (h : nat)
+| RmReval (k : N) (obs : option Z) (h : nat)
+| RmWalk (k : N) (obs : option Z) (h : nat) (pred : option nat) (e : nat)   (* load e.next *)
+| RmFound (k : N) (obs : option Z) (h : nat) (pred : option nat) (e : nat) (nxt : option nat)
+                                                     (* load e.value, compare with obs *)
 | RmUnlink (k : N) (h : nat) (pred : option nat) (e : nat) (nxt : option nat) (ev : Z)
 (* compute_if_present *)
 | CpLock (k : N) (f : Z -> option Z) (h : nat)
@@ -113,11 +116,15 @@ Definition goto (c : cfg) (t : nat) (p : pc) : cfg :=
 Definition enabled (c : cfg) (t : nat) : bool :=
   let th := get_thr c t in
   match at_ th with
-  | PutLock _ _ _ h | RmLock _ h | CpLock _ _ h =>
+  | PutLock _ _ _ h | RmLock _ _ h | CpLock _ _ h =>
       match lock_at (sh c) h with None => true | Some _ => false end
   | PDone => match todo th with [] => false | _ => true end
   | _ => true
   end.
+
+(* the removal a pc of the Rm family belongs to *)
+Definition rm_op (k : N) (obs : option Z) : opn :=
+  match obs with Some v => OCondRemove k v | None => ORemove k end.
 
 Definition step (c0 : cfg) (t : nat) : cfg :=
   let c := mkCfg (sh c0) (thr c0) (now c0 + 1)%N (hist c0) in
@@ -135,6 +142,7 @@ Definition step (c0 : cfg) (t : nat) : cfg :=
       match bin_at s (bini k), o with
       | None, OGet _ => finish c t RNone
       | None, ORemove _ => finish c t RNone
+      | None, OCondRemove _ _ => finish c t RNone
       | None, OCompute _ _ => finish c t (RComputed None None)
       | None, OInsert _ v => goto c t (PutCas k v false)
       | None, OTryInsert _ v => goto c t (PutCas k v true)
@@ -142,7 +150,8 @@ Definition step (c0 : cfg) (t : nat) : cfg :=
       | Some h, OInsert _ v => goto c t (PutLock k v false h)
       | Some h, OTryInsert _ v =>
           if (ckey (cell_at s h) =? k)%N then goto c t (PutFast k v h) else goto c t (PutLock k v true h)
-      | Some h, ORemove _ => goto c t (RmLock k h)
+      | Some h, ORemove _ => goto c t (RmLock k None h)
+      | Some h, OCondRemove _ obs => goto c t (RmLock k (Some obs) h)
       | Some h, OCompute _ f => goto c t (CpLock k f h)
       end
   (* ---- get ---- *)
@@ -196,25 +205,31 @@ Definition step (c0 : cfg) (t : nat) : cfg :=
       | None => finish c' t r
       end
   (* ---- remove ---- *)
-  | RmLock k h =>
+  | RmLock k obs h =>
       match lock_at s h with
-      | None => goto (with_sh c (set_lock s h (Some t))) t (RmReval k h)
+      | None => goto (with_sh c (set_lock s h (Some t))) t (RmReval k obs h)
       | Some _ => c0
       end
-  | RmReval k h =>
+  | RmReval k obs h =>
       match bin_at s (bini k) with
-      | Some h' => if Nat.eqb h' h then goto c t (RmWalk k h None h)
-                   else goto c t (PutUnlock h RNone (Some (ORemove k)))
-      | None => goto c t (PutUnlock h RNone (Some (ORemove k)))
+      | Some h' => if Nat.eqb h' h then goto c t (RmWalk k obs h None h)
+                   else goto c t (PutUnlock h RNone (Some (rm_op k obs)))
+      | None => goto c t (PutUnlock h RNone (Some (rm_op k obs)))
       end
-  | RmWalk k h pred e =>
+  | RmWalk k obs h pred e =>
       let nxt := cnext (cell_at s e) in                                               (* load next *)
-      if (ckey (cell_at s e) =? k)%N then goto c t (RmFound k h pred e nxt)
+      if (ckey (cell_at s e) =? k)%N then goto c t (RmFound k obs h pred e nxt)
       else match nxt with
-           | Some q => goto c t (RmWalk k h (Some e) q)
+           | Some q => goto c t (RmWalk k obs h (Some e) q)
            | None => goto c t (PutUnlock h RNone None)
            end
-  | RmFound k h pred e nxt => goto c t (RmUnlink k h pred e nxt (cval (cell_at s e)))   (* load value *)
+  | RmFound k obs h pred e nxt =>                                                     (* load value *)
+      let ev := cval (cell_at s e) in
+      match obs with
+      | Some v => if v =? ev then goto c t (RmUnlink k h pred e nxt ev)
+                  else goto c t (PutUnlock h RNone None)     (* the value changed: leave it *)
+      | None => goto c t (RmUnlink k h pred e nxt ev)
+      end
   | RmUnlink k h pred e nxt ev =>
       let s' := match pred with
                 | Some p => let cp := cell_at s p in set_cell s p (mkCell (ckey cp) (cval cp) nxt)
@@ -278,6 +293,7 @@ Definition kop_of (o : opn) (r : res) : kop :=
   | OTryInsert _ v, _ => KTryInsert v None
   | ORemove _, RVal old => KRemove (Some old)
   | ORemove _, _ => KRemove None
+  | OCondRemove _ obs, _ => KCondRemove obs
   | OCompute _ f, RComputed seen ret => KCompute f seen ret
   | OCompute _ f, _ => KCompute f None None
   end.
